@@ -125,28 +125,6 @@ Definition ser_flat (mods : list (path * ident)) (gates : list (path * ident * N
                          (filter (fun g => let '(p, _, _, _) := g in path_eqb p (fst m)) gates))) mods) ++
   sorted_concat (map (fun e => let '(a, b, l) := e in ser_gate_pos a ++ ser_gate_pos b ++ ser_link l) edges).
 
-Definition state_gates (st : bstate) : list (path * ident * N * N) :=
-  map (fun g => (gr_path g, gr_name g, gr_size g, gr_pos g)) (bs_gates st).
-Definition pos_of (st : bstate) (id : N) : gate_pos :=
-  match find (fun g => gr_id g =? id) (bs_gates st) with
-  | Some g => (gr_path g, gr_name g, gr_pos g)
-  | None => ([], [], 0)
-  end.
-Definition state_edges (st : bstate) : list (gate_pos * gate_pos * option Link) :=
-  flat_map (fun e => map (fun c => (pos_of st (fst e), pos_of st (fst c), snd c)) (snd e)) (bs_conns st).
-
-(* the connection set a list of connection statements denotes: both directions, a pair
-   connected twice counts once (the first statement's link) *)
-Definition gp_eqb (a b : gate_pos) : bool :=
-  let '(p, n, k) := a in let '(q, m, j) := b in path_eqb p q && beq n m && (k =? j).
-Fixpoint den_edges (l : list (gate_pos * gate_pos * option Link)) (acc : list (gate_pos * gate_pos * option Link)) :=
-  match l with
-  | [] => acc
-  | (a, b, k) :: r =>
-    if existsb (fun e => let '(x, y, _) := e in gp_eqb x a && gp_eqb y b) acc then den_edges r acc
-    else den_edges r (acc ++ [(a, b, k); (b, a, k)])
-  end.
-
 (* the registry of the harness: symbols M0..M31 and T0..T7 resolve to a trivial module *)
 Definition registered (s : ident) : bool :=
   match s with
@@ -174,7 +152,7 @@ Definition run_build (d : Def) (n : Node) : list N :=
        | Ok st =>
          let out := ser_flat (bs_mods st) (state_gates st) (state_edges st) in
          let den := match denote_tree d with
-                    | Some dn => if list_eqb N.eqb out (ser_flat (den_mods dn []) (den_gates dn []) (den_edges (den_conns dn []) []))
+                    | Some dn => if list_eqb N.eqb out (ser_flat (den_mods dn []) (den_gates dn []) (conn_set (den_conns dn []) []))
                                  then 1 else 0
                     | None => 1
                     end in
